@@ -4,13 +4,15 @@ package main
 // no operation can ever affect another item, the arguments, the state data or the program.
 // Written from the statement of the instruction set (byte-string semantics and the published
 // cost rules), not derived from the implementation's data structures. It models the opcodes
-// that the enumerated programs use plus the common ones a CHECKPREDICATE child made of
+// that the enumerated programs use (stack, splice, bitwise, ALL numeric opcodes on math/big,
+// both hashes, CHECKPREDICATE, PROGRAM) plus the common ones a CHECKPREDICATE child made of
 // argument bytes can contain; any other defined opcode makes a child verdict "unknown".
 
 import (
 	"crypto/sha256"
 	"encoding/binary"
 	"math"
+	"math/big"
 
 	"golang.org/x/crypto/sha3"
 )
@@ -25,6 +27,7 @@ const (
 	eShort      = "shortprogram"
 	eVerify     = "verifyfailed"
 	eReturn     = "return"
+	eDivZero    = "divzero"
 	eUnexpected = "unexpected" // the implementation panics (recovered by Verify as ErrUnexpected)
 	eOther      = "other"
 	eUnknown    = "unknown" // outside the modelled subset
@@ -142,6 +145,52 @@ func (n num) int64() (int64, string) {
 		return 0, eBadValue
 	}
 	return int64(n.lo), eOK
+}
+
+// full-width numbers (arithmetic opcodes): math/big, little-endian minimal encoding
+var (
+	bigOne = big.NewInt(1)
+	two255 = new(big.Int).Lsh(bigOne, 255)
+	two256 = new(big.Int).Lsh(bigOne, 256)
+)
+
+func asBig(s string) (*big.Int, string) {
+	if len(s) > 32 {
+		return nil, eBadValue
+	}
+	if len(s) == 32 && s[31]&0x80 != 0 {
+		return nil, eRange
+	}
+	be := make([]byte, len(s))
+	for i := range be {
+		be[i] = s[len(s)-1-i]
+	}
+	return new(big.Int).SetBytes(be), eOK
+}
+
+func bigStr(n *big.Int) string {
+	be := n.Bytes()
+	le := make([]byte, len(be))
+	for i := range le {
+		le[i] = be[len(be)-1-i]
+	}
+	return string(le)
+}
+
+func (v *rvm) popBig(deferred bool) (*big.Int, string) {
+	s, e := v.pop(deferred)
+	if e != eOK {
+		return nil, e
+	}
+	return asBig(s)
+}
+
+// pushNum pushes a number; a result outside [0, 2^255) is a range error.
+func (v *rvm) pushNum(n *big.Int) string {
+	if n.Sign() < 0 || n.Cmp(two255) >= 0 {
+		return eRange
+	}
+	return v.push(bigStr(n), true)
 }
 
 func numBytes(n uint64) string {
@@ -662,6 +711,135 @@ func (v *rvm) exec(op byte, data string, next *uint32) string {
 			return eVerify
 		}
 		return eOK
+	case 0x8b, 0x8c, 0x8d, 0x8e, 0x91, 0x92: // 1ADD 1SUB 2MUL 2DIV NOT 0NOTEQUAL
+		if e := v.apply(2); e != eOK {
+			return e
+		}
+		n, e := v.popBig(true)
+		if e != eOK {
+			return e
+		}
+		switch op {
+		case 0x8b:
+			n.Add(n, bigOne)
+		case 0x8c:
+			n.Sub(n, bigOne)
+		case 0x8d:
+			n.Lsh(n, 1)
+		case 0x8e:
+			n.Rsh(n, 1)
+		case 0x91:
+			return v.push(boolStr(n.Sign() == 0), true)
+		default:
+			return v.push(boolStr(n.Sign() != 0), true)
+		}
+		return v.pushNum(n)
+	case 0x9a, 0x9b: // BOOLAND BOOLOR
+		if e := v.apply(2); e != eOK {
+			return e
+		}
+		b, e := v.pop(true)
+		if e != eOK {
+			return e
+		}
+		a, e := v.pop(true)
+		if e != eOK {
+			return e
+		}
+		if op == 0x9a {
+			return v.push(boolStr(asBool(a) && asBool(b)), true)
+		}
+		return v.push(boolStr(asBool(a) || asBool(b)), true)
+	case 0x93, 0x94, 0x95, 0x96, 0x97, 0x98, 0x99, 0x9c, 0x9d, 0x9e, 0x9f, 0xa0, 0xa1, 0xa2, 0xa3, 0xa4:
+		// ADD SUB MUL DIV MOD LSHIFT RSHIFT NUMEQUAL NUMEQUALVERIFY NUMNOTEQUAL LESSTHAN GREATERTHAN
+		// LESSTHANOREQUAL GREATERTHANOREQUAL MIN MAX: the top operand is taken (and must be a
+		// number) before the second one is looked at
+		c := int64(2)
+		if op >= 0x95 && op <= 0x99 {
+			c = 8
+		}
+		if e := v.apply(c); e != eOK {
+			return e
+		}
+		y, e := v.popBig(true)
+		if e != eOK {
+			return e
+		}
+		x, e := v.popBig(true)
+		if e != eOK {
+			return e
+		}
+		cmp := x.Cmp(y)
+		switch op {
+		case 0x93:
+			return v.pushNum(x.Add(x, y))
+		case 0x94:
+			return v.pushNum(x.Sub(x, y))
+		case 0x95:
+			return v.pushNum(x.Mul(x, y))
+		case 0x96, 0x97:
+			if y.Sign() == 0 {
+				return eDivZero
+			}
+			if op == 0x96 {
+				return v.pushNum(x.Quo(x, y))
+			}
+			return v.pushNum(x.Rem(x, y))
+		case 0x98, 0x99:
+			// shift counts of 256 and more give zero; a left shift keeps the low 256 bits and the
+			// result must then be below 2^255
+			if !y.IsUint64() || y.Uint64() >= 256 {
+				return v.pushNum(new(big.Int))
+			}
+			if op == 0x98 {
+				x.Lsh(x, uint(y.Uint64()))
+				return v.pushNum(x.Mod(x, two256))
+			}
+			return v.pushNum(x.Rsh(x, uint(y.Uint64())))
+		case 0x9c:
+			return v.push(boolStr(cmp == 0), true)
+		case 0x9d:
+			if cmp != 0 {
+				return eVerify
+			}
+			return eOK
+		case 0x9e:
+			return v.push(boolStr(cmp != 0), true)
+		case 0x9f:
+			return v.push(boolStr(cmp < 0), true)
+		case 0xa0:
+			return v.push(boolStr(cmp > 0), true)
+		case 0xa1:
+			return v.push(boolStr(cmp <= 0), true)
+		case 0xa2:
+			return v.push(boolStr(cmp >= 0), true)
+		case 0xa3:
+			if cmp > 0 {
+				return v.pushNum(y)
+			}
+			return v.pushNum(x)
+		}
+		if cmp < 0 {
+			return v.pushNum(y)
+		}
+		return v.pushNum(x)
+	case 0xa5: // WITHIN: x min max -> min <= x < max
+		if e := v.apply(4); e != eOK {
+			return e
+		}
+		max, e := v.popBig(true)
+		if e != eOK {
+			return e
+		}
+		min, e := v.popBig(true)
+		if e != eOK {
+			return e
+		}
+		x, e := v.popBig(true)
+		if e != eOK {
+			return e
+		}
+		return v.push(boolStr(x.Cmp(min) >= 0 && x.Cmp(max) < 0), true)
 	case 0xa8, 0xaa: // SHA256 SHA3
 		x, e := v.pop(false)
 		if e != eOK {
@@ -722,6 +900,11 @@ func (v *rvm) exec(op byte, data string, next *uint32) string {
 		child := &rvm{prog: pred, code: v.code, run: limit, data: append([]string{}, v.data[l-n:]...), gasOK: v.gasOK}
 		v.data = v.data[:l-n]
 		res := child.runAll()
+		if res == eUnexpected {
+			// a panic inside the child is not a failed predicate: nothing recovers it before
+			// Verify does, the whole run ends with ErrUnexpected (PICK observation, see NOTES.md)
+			return eUnexpected
+		}
 		if res == eUnknown || !trusted {
 			// operands are consumed; only the pushed boolean is left open
 			v.verdictUnknown = true
